@@ -373,22 +373,43 @@ pub fn no_std(m: &Model, ctx: &mut Ctx, rule: &str) {
                 let consts = const_resolver(m);
                 let hook = |_: &Evaluator, _: &str, _: &[Val]| -> Option<Result<Val, String>> { None };
                 let ev = Evaluator { consts: &consts, call_hook: &hook, inline: None };
-                for no_std in [false, true] {
+                // locals the decision is computed from (`let x = ..;` statements of the same function that it mentions, in order)
+                struct All { out: Vec<syn::Local> }
+                impl model::DeepCb for All { fn local(&mut self, l: &syn::Local) { self.out.push(l.clone()); } }
+                let mut all = All { out: vec![] };
+                model::deep_walk_block(&gm.block, &mut all);
+                let init_text = tok(&l.init.as_ref().unwrap().expr);
+                let helpers: Vec<&syn::Local> = all.out.iter().take_while(|x| tok(*x) != tok(l)).filter(|x| match &x.pat { syn::Pat::Ident(pi) => init_text.contains(&pi.ident.to_string()) && x.init.is_some(), _ => false }).collect();
+                // the other options are set too: the import depends on no_std_compliant_bindings alone
+                for (no_std, custom) in [(false, vec![]), (true, vec![]), (false, vec!["lazy_static::initialize", "my::Thing"]), (true, vec!["lazy_static::initialize", "my::Thing"]), (true, vec!["other::lazy_static_like"])] {
                     let mut cfg = BTreeMap::new();
                     cfg.insert("no_std_compliant_bindings".to_string(), Val::Bool(no_std));
+                    cfg.insert("custom_imports".to_string(), Val::List(custom.iter().map(|c| Val::Str(c.to_string())).collect()));
+                    cfg.insert("default_wildcard_imports".to_string(), Val::Bool(false));
+                    cfg.insert("generate_from_impls".to_string(), Val::Bool(false));
+                    cfg.insert("opaque_open_types".to_string(), Val::Bool(true));
+                    cfg.insert("type_annotations".to_string(), Val::List(vec![]));
                     let mut me = BTreeMap::new();
                     me.insert("config".to_string(), Val::Ctor("Config".into(), vec![], cfg));
                     let mut env = Env::new();
                     env.insert("self".into(), Val::Ctor("Rasn".into(), vec![], me));
+                    for h in &helpers {
+                        if let (syn::Pat::Ident(pi), Some(init)) = (&h.pat, &h.init) {
+                            if let Ok(v) = ev.eval(&init.expr, &mut env) {
+                                env.insert(pi.ident.to_string(), v);
+                            }
+                        }
+                    }
                     match ev.eval(&l.init.as_ref().unwrap().expr, &mut env) {
                         Ok(v) => {
                             let t = v.show().replace(' ', "");
                             let want = if no_std { "lazy_static::lazy_static" } else { "std::sync::LazyLock" };
                             if !t.contains(want) {
-                                ctx.violate(rule, "no_std:module-import", &gm.file, span_line(l), &format!("with no_std_compliant_bindings = {} the module wrapper imports `{}`, expected `{}`", no_std, t, want));
+                                ctx.violate(rule, "no_std:module-import", &gm.file, span_line(l), &format!("with no_std_compliant_bindings = {}{} the module wrapper imports `{}`, expected `{}`: the value templates are chosen by this option alone, so the module then uses a macro / type it does not import", no_std, if custom.is_empty() { String::new() } else { format!(" and custom_imports = {:?}", custom) }, t, want));
+                                break;
                             }
                         }
-                        Err(e) => ctx.fail_closed(rule, &format!("[no_std module import]: {}", e)),
+                        Err(e) => { ctx.fail_closed(rule, &format!("[no_std module import]: {}", e)); break }
                     }
                 }
                 if !b.contains(&model::norm_tokens(&format!("use #{};", var))) {
